@@ -762,6 +762,19 @@ func (x *Exec) runLoop(fr *frame, li *loopInfo, st *State) ([]edge, error) {
 			}
 			x.vc.oblige("inv-preserved", fmt.Sprintf("%s/inv#%d/preserved", name, i), e.st.pc, t, hpos, inv.Text)
 		}
+		if len(spec.Steps) > 0 {
+			// "loop K: step E": what every completed iteration has established when it goes round
+			// again - stated over the variables of the body, asserted only (never assumed)
+			senv := x.specEnv(fr, e.st, nil)
+			senv.pol = -1
+			for i, sc := range spec.Steps {
+				t, err := x.evalBool(sc.Expr, senv)
+				if err != nil {
+					return nil, fmt.Errorf("%s:%d: loop %d step: %w", sc.File, sc.Line, li.ordinal, err)
+				}
+				x.vc.oblige("inv-preserved", fmt.Sprintf("%s/step#%d", name, i), e.st.pc, t, hpos, sc.Text)
+			}
+		}
 		if t := x.frameKept(fr, head, e.st, hav); t.B != 1 {
 			x.vc.oblige("inv-preserved", name+"/frame/preserved", e.st.pc, t, hpos, "loop body respects the function's modifies clause")
 		}
